@@ -13,8 +13,9 @@ original_delimiter, special_field_name_prefix, remove_special_field_name_prefix,
 capitalise_enum_members, no_alias) and both call flags (ignore_snake_case_field, upper_camel).
 `str.lower`/`str.upper` are PARAMETERS (`Env`); `pyEnv` instantiates them with the character-wise
 maps of Dcg/Py/Chars (exact for `upper`, exact for `lower` except the final-sigma context rule).
+The constructor's guard on `special_field_name_prefix` is `PrefixStart` / `construct`.
 Python exceptions (`ValueError: empty separator` for an empty delimiter, `IndexError` on an empty
-name) are the result `.error`; the retry loop carries a fuel argument and `.outOfFuel` stands for
+name, the constructor's `Error`) are the result `.error`; the retry loop carries a fuel argument and `.outOfFuel` stands for
 "has not returned yet".
 -/
 namespace Dcg.Model.Names
@@ -58,6 +59,23 @@ structure Cfg where
 
 def Cfg.effEmpty (cfg : Cfg) : List Char :=
   if cfg.emptyFieldName = [] then ['_'] else cfg.emptyFieldName
+
+/-! ### the constructor (`FieldNameResolver.__init__`, inherited by the two subclasses) -/
+
+/-- `"field" if special_field_name_prefix is None else special_field_name_prefix` -/
+def storedPrefix : Option (List Char) → List Char
+  | none => ['f', 'i', 'e', 'l', 'd']
+  | some p => p
+
+/-- the guard of the constructor: `f"{self.special_field_name_prefix}_".isidentifier()` — the prefix is empty
+or the beginning of an identifier (it may start with `_`) -/
+def PrefixStart (cfg : Cfg) : Prop := isIdentifier (cfg.pfx ++ ['_']) = true
+
+instance (cfg : Cfg) : Decidable (PrefixStart cfg) := by unfold PrefixStart; infer_instance
+
+/-- the constructor: `none` = it raises `Error` (no resolver object exists); otherwise the options are stored
+as they are -/
+def construct (cfg : Cfg) : Option Cfg := if PrefixStart cfg then some cfg else none
 
 /-- `_validate_field_name` -/
 def validate (k : Kind) (n : List Char) : Bool :=
@@ -221,6 +239,14 @@ def getValidNameF (fuel : Nat) (E : Env) (k : Kind) (cfg : Cfg) (name : List Cha
 def getValidName (E : Env) (k : Kind) (cfg : Cfg) (name : List Char)
     (excl : List (List Char)) (ign uc : Bool) : Res (List Char) :=
   getValidNameF ((effExcl k excl).length + 2) E k cfg name excl ign uc
+
+/-- What a caller observes of `Resolver(**options).get_valid_name(...)`: the constructor first (its `Error`
+is the result `.error`), then the call. -/
+def newAndGetValidName (E : Env) (k : Kind) (cfg : Cfg) (name : List Char)
+    (excl : List (List Char)) (ign uc : Bool) : Res (List Char) :=
+  match construct cfg with
+  | none => .error
+  | some c => getValidName E k c name excl ign uc
 
 /-- `get_valid_field_name_and_alias` -/
 def getValidFieldNameAndAlias (E : Env) (k : Kind) (cfg : Cfg) (name : List Char)
